@@ -468,10 +468,10 @@ def bb_leg(tier, seed, tag):
 def mc(tier):
     out = {}
     spec_h = tree_hash([os.path.join(SPEC, "Incremental.tla")])
-    cfgs = [("inc_p2", {"Paths": "{p1, p2}", "NT": 1, "MaxM": 1, "MaxC": 1, "MaxOps": 2, "MaxInv": 2, "RecordBefore": True}),
-            ("inc_t2", {"Paths": "{p1, p2}", "NT": 2, "MaxM": 1, "MaxC": 1, "MaxOps": 1, "MaxInv": 2, "RecordBefore": True})]
+    cfgs = [("inc_p2", {"Paths": "{p1, p2}", "NT": 1, "MaxM": 1, "MaxC": 1, "MaxOps": 2, "MaxInv": 2, "RecordBefore": True, "GuardNoInput": True}),
+            ("inc_t2", {"Paths": "{p1, p2}", "NT": 2, "MaxM": 1, "MaxC": 1, "MaxOps": 1, "MaxInv": 2, "RecordBefore": True, "GuardNoInput": True})]
     if tier == "thorough":
-        cfgs.append(("inc_p3", {"Paths": "{p1, p2, p3}", "NT": 1, "MaxM": 1, "MaxC": 1, "MaxOps": 2, "MaxInv": 2, "RecordBefore": True}))
+        cfgs.append(("inc_p3", {"Paths": "{p1, p2, p3}", "NT": 1, "MaxM": 1, "MaxC": 1, "MaxOps": 2, "MaxInv": 2, "RecordBefore": True, "GuardNoInput": True}))
     invs = ["TypeOK", "FullOnlyFromSuccess", "SkipMeansUpToDate", "SkipComplete", "NoInputNoRecord"]
     for name, consts in cfgs:
         key = hashlib.sha256(json.dumps([spec_h, name, consts, invs], sort_keys=True).encode()).hexdigest()[:16]
@@ -479,11 +479,11 @@ def mc(tier):
         if os.path.exists(cp):
             out[name] = json.load(open(cp))
             continue
-        cfg = write_cfg("Incremental_" + name, consts, invs, ["RecIndependent"], "Spec", False)
+        cfg = write_cfg("Incremental_" + name, consts, invs, ["RecIndependent", "NoInputNeverSkipped"], "Spec", False)
         t0 = time.time()
         rc, o = tlc("Incremental.tla", cfg, workers=min(12, NCPU), timeout=3000, metaname="mc_" + name)
         st = tlc_stats(o)
-        st.update({"name": name, "constants": consts, "invariants": invs, "properties": ["RecIndependent"],
+        st.update({"name": name, "constants": consts, "invariants": invs, "properties": ["RecIndependent", "NoInputNeverSkipped"],
                    "wall_s": round(time.time() - t0, 1)})
         if st["ok"]:
             json.dump(st, open(cp, "w"))
